@@ -169,6 +169,17 @@ func (c *compiler) write(bb *strings.Builder, i interface{}) {
 		for _, ii := range t.Value {
 			c.write(bb, ii)
 		}
+	case breakObject:
+		// a break or continue that arrives where no loop is (a stored block
+		// replayed at the top level of a partial) ends nothing there; what
+		// the block it left had produced is output like any other
+		for _, ii := range t.Value {
+			c.write(bb, ii)
+		}
+	case continueObject:
+		for _, ii := range t.Value {
+			c.write(bb, ii)
+		}
 	}
 }
 
